@@ -148,20 +148,20 @@ theorem agg_distinct_batch (O : Oracles) (qy : Query) (q : AggStmt) (joined : Li
             | none => dedupFirst tupleSame r.rows)).map (renderRecord r.columns) } :=
   runBatch_agg_distinct O qy q joined files hu
 
-/-- **follow mode / line-at-a-time** (update + result): a step returns the concatenation of its result tables
-(`stepTables`: one per environment that updated the state — exactly one without a join), and with DISTINCT each
-of these tables is the corresponding table without DISTINCT, deduplicated on its own -/
+/-- **follow mode / line-at-a-time** (update + result): a step returns its result table (`stepTable`: every
+environment of the line — one per join partner, exactly one without a join — updates the state, then one table iff one of
+them updated), and with DISTINCT that table is the table without DISTINCT, deduplicated on its own -/
 theorem agg_distinct_step_tables (O : Oracles) (qy : Query) (q : AggStmt) (hq : qy.stmt = .aggregate q)
     (idx : JoinIndex) (es : EngineState) (l : Line) (envs : List (Env × List String)) :
     (executeLine O qy idx true es l =
       if !anyResult l.row then .ok (updateLimit false q.limit es none)
       else (lineEnvs qy idx false l).bind (fun envs =>
-        (stepTables O q envs es.agg).bind (fun t =>
-          .ok (updateLimit false q.limit { es with agg := t.1 } (collect none t.2))))) ∧
-    stepTables O (q.withDistinct true) envs es.agg =
-      Outcome.mapOk (fun t => (t.1, t.2.map dedupTable)) (stepTables O (q.withDistinct false) envs es.agg) :=
+        (stepTable O q envs es.agg).bind (fun t =>
+          .ok (updateLimit false q.limit { es with agg := t.1 } t.2)))) ∧
+    stepTable O (q.withDistinct true) envs es.agg =
+      Outcome.mapOk (fun t => (t.1, t.2.map dedupTable)) (stepTable O (q.withDistinct false) envs es.agg) :=
   ⟨executeLine_agg_result O qy q hq idx es l,
-   stepTables_distinct O (q := q.withDistinct false) (q' := q.withDistinct true) ⟨rfl, rfl, rfl, rfl, rfl, rfl⟩ rfl rfl
+   stepTable_distinct O (q := q.withDistinct false) (q' := q.withDistinct true) ⟨rfl, rfl, rfl, rfl, rfl, rfl⟩ rfl rfl
      envs es.agg⟩
 
 /-! ### non-vacuity and concrete behaviour -/
